@@ -168,6 +168,10 @@ def check(chk: Check) -> None:
     # --------------------------------------------------------------------- R5
     for key, ok, where, det in lookup_sites(chk):
         chk.require(ok, R5, key, where, det)
+    for label, where, text in common.default_factory_dicts(chk):
+        chk.bad(R5, '%s returns a dict with a default factory' % label, where,
+                'the value handed to the program is `%s`: reading a missing key of it (d[k], through any keyed read above) inserts the key '
+                'and returns the default instead of raising - the missing-key failure never becomes a ParserError' % text)
 
     # --------------------------------------------------------------------- R6
     # the size cap: wherever a table function compares len(<argument>) with a constant and raises right away, it raises ParserError
